@@ -89,8 +89,10 @@ fn c16_update_step_int_column() {
     let row = ExecutorRow::new(&cells);
     s.update(&func(kind), &row);
     assert!(inv(&s, &g2, kind));
-    kani::cover!(is_null && kind == 1);
-    kani::cover!(!is_null && kind == 3 && g.min.is_some());
+    let c1 = is_null & (kind == 1);
+    kani::cover!(c1);
+    let c2 = !is_null & (kind == 3) & g.min.is_some();
+    kani::cover!(c2);
 }
 
 //@ props=C16 kind=proof
@@ -114,10 +116,12 @@ fn c16_finalize_int_column() {
             }
         }
         2 => {
+            // AVG: NULL on zero non-NULL inputs, a Float otherwise (its exact value is the separate
+            // obligation c16_finalize_avg_value: float division is too heavy to share this query)
             if g.nonnull == 0 {
                 assert!(matches!(out, Value::Null));
             } else {
-                match out { Value::Float(f) => assert!(f == (g.isum as i64) as f64 / (g.nonnull as f64)), _ => assert!(false) }
+                assert!(matches!(out, Value::Float(_)));
             }
         }
         3 => match (g.min, out) { (None, Value::Null) => {}, (Some(m), Value::Int(v)) => assert!(v == m), _ => assert!(false) },
@@ -156,6 +160,21 @@ fn c16_update_step_float_minmax() {
     assert!(s.min_int.is_none() && s.max_int.is_none());
     let out = s.finalize(&fun);
     match (expect, out) { (None, Value::Null) => {}, (Some(b), Value::Float(v)) => assert!(v == b), _ => assert!(false) }
+}
+
+//@ props=C16 kind=bounded bound="|sum| <= 4096 and 1 <= count <= 64 (float division bit-blasted by CBMC)" timeout=900
+/// AVG value: finalize(Avg) == exact_sum / n evaluated in f64, for small sums and counts
+#[kani::proof]
+#[kani::unwind(2)]
+fn c16_finalize_avg_value() {
+    let g = any_g();
+    kani::assume(g.nonnull >= 1 && g.nonnull <= 64 && g.isum >= -4096 && g.isum <= 4096);
+    let s = any_state();
+    kani::assume(inv(&s, &g, 2));
+    match s.finalize(&func(2)) {
+        Value::Float(f) => assert!(f == (g.isum as i64) as f64 / (g.nonnull as f64)),
+        _ => assert!(false),
+    }
 }
 
 //@ props=C16 kind=known finding=F-C16-1
